@@ -57,7 +57,7 @@ RULE = ("F: one case = (point sequence, weight vector) run as a call history on 
         "(grid, sequence); quick tier only: 3-objective fronts of >= 3 points go through the transformations in sorted and reversed "
         "order only. D: one case = (obj1, cv1, obj2, cv2), all pairs; triples through the pair table. "
         "T: one case = (front sequence, sign vector, preference vector) run through all three implementations, plain and "
-        "transformed (scale, translation rotating over 8 exactly representable pairs; argument dtype/layout combination rotating over 8, "
+        "transformed (scale, translation rotating over 11 exactly representable pairs, scales 2^-70 .. 2^40; argument dtype/layout combination rotating over 8, "
         "incl. all-int64 and all-int32); non-trivial = at least two distinct points. M: one execution = (n, k, constraint mode, element "
         "violation vectors g, h, start chromosome, answer vector of numpy.random.choice) through hillclimb(). states = distinct (layer, grid, sequence[, sign]) configurations; "
         "transitions = real function calls; traces = cases whose every observation agreed with the reference")
@@ -90,7 +90,9 @@ TRANSL = [(5, -3, 7), (-2.5, 0.25, 1)]
 # exact notion (all values equal).  Large offsets relative to the spread (unit front moved by 2^20 / 2^30; front shrunk to
 # 2^-20 and moved by 1 or 2^10) expose any tolerance-based "is this objective constant" test.
 TRANSF = [(1, (5, -3, 7)), (1, (-2.5, 0.25, 1)), (1, (2 ** 10, -2 ** 10, 2 ** 10)), (1, (2 ** 20, 2 ** 20, -2 ** 20)),
-          (1, (-2 ** 30, 2 ** 20, 2 ** 30)), (2.0 ** -20, (0, 0, 0)), (2.0 ** -20, (1, -1, 1)), (2.0 ** -20, (2 ** 10, 0, -2 ** 10))]
+          (1, (-2 ** 30, 2 ** 20, 2 ** 30)), (2.0 ** -20, (0, 0, 0)), (2.0 ** -20, (1, -1, 1)), (2.0 ** -20, (2 ** 10, 0, -2 ** 10)),
+          # objectives expressed in very small / very large units (spread far below any absolute tolerance such as 1e-8)
+          (2.0 ** -40, (0, 0, 0)), (2.0 ** -70, (0, 0, 0)), (2.0 ** 40, (0, 0, 0))]
 # argument dtype / layout combinations (points / sign-or-objective weights / preference vector); integer forms fall back to
 # float32 for an array that holds a non-integral value, so the all-integer combination occurs in every seed
 ARGFORMS = [("f8C", "f8", "f8"), ("i8", "i8", "i8"), ("f8F", "i4", "f4"), ("f8view", "f8", "i8"),
@@ -680,7 +682,7 @@ def run_T(spec, ctx):
                     cnt += 1
                     ctx.evaluations += 1
                     form = "/".join(ARGFORMS[(cnt // 8) % 8])
-                    tf = (cnt + cnt // 8) % 8
+                    tf = (cnt + cnt // 8) % len(TRANSF)
                     ctx.count("T:form:" + form)
                     ctx.count(f"T:transformation:{tf}")
                     if form == "i8/i8/i8" and _integral(G.fl[list(seq)]) and _integral(numpy.array([float(x) for x in pref])):
